@@ -57,6 +57,9 @@ use super::*;
 //@fn <TryFrom<Value> for u16>::try_from
 //@fn <TryFrom<Value> for u8>::try_from
 
+//@fn <From<Vec<V>> for Value>::from
+//@fn <TryFrom<Value> for Vec<V>>::try_from
+
 //@include convert_lemmas.rs
 
 } // mod code
